@@ -3,8 +3,11 @@
    BHJM_dipole, BHJM_cylinder_segment_internal, the J/M branches of BHJM_magnet_cylinder, the
    np.unique(return_inverse) construction of TriangularMesh.from_mesh / from_triangles, and
    TriangularMesh.to_TriangleCollection; they are tied to /repo by the correspondence of harness/props/C13.py.
+   The closed-form terms, the assembling table and the flip sign tables of magnet_cuboid_Bfield and the placement of
+   the between-the-bases test of BHJM_magnet_cylinder are TRANSLATED from /repo on every run (Gen/GenCuboid.v,
+   Gen/GenCylMask.v).
    NOT proved here (searched numerically only): identities between different closed forms
-   (Cuboid = mesh = tetrahedra, Cylinder = sum of segments, Polyline -> Circle). *)
+   (Cuboid = mesh = tetrahedra, Cylinder = sum of segments, Polyline -> Circle), rotated cuboid partitions. *)
 From Coq Require Import ZArith Reals List Bool.
 From MV Require Import Lib.Rigid Lib.OctZ Gen.GenCuboid Gen.GenCylMask Model.ReprModel Model.ReprExec Proofs.ReprProofs Proofs.ReprExecProofs
   Proofs.ReprCuboid Proofs.ReprUnique Proofs.ReprFlip.
